@@ -161,6 +161,26 @@ CLAIMED.update({
 
 PENDING_REASON ="check not yet built in this revision of /verif (no technical obstacle; see DESIGN.md section 5)"
 
+# Added in the second build round (DESIGN.md section 10): appended to the level text.
+EXTRA = {
+    "C01": "Further phases: 'minmax' (merged blocks whose range is the hull of several source ranges, prefilter-only queries with operands next to the stored values).",
+    "C02": "Further phases: 'minmax' (as C01) and 'blockmeta' (the block-granular clauses judged directly on EvaluateDataBlockMetadata/FilterDataBlocks over generated metadata).",
+    "C03": "Further phase 'pool': abnormally ending queries (failed/corrupted row-data read, early Close, cancel) followed by a query parked mid-scan by a stalled consumer while other queries scan equally sized blocks.",
+    "C04": "The engine-level 'e2e' phase uses histories of 3-8 small flushed files merged once or twice and prefilter-only queries.",
+    "C05": "Further phase 'stoprace': callers held between the engine's stopped check and its enqueue by a Context whose Done() parks, released before/during/after Stop.",
+    "C06": "Further phase 'badbatch' (rejection-heavy partitioned histories, no injected faults); 'error means absent' is also judged with the filesystem store as MetaStore unless a cleanup call itself was made to fail.",
+    "C08": "Further phase 'stoprace' (see C05).",
+    "C10": "Generator modes: mixed limits, exactly one binding limit, and a trickle of small/empty requests inside every time window; answers are time-stamped by live receivers and bounded from each batch's own acceptance.",
+    "C13": "Single-flight is checked with three further Merge calls made one after the other while the first is gated.",
+    "C16": "Sequences include redundant Close/Abort/Write calls on a writer whose Close already succeeded.",
+    "C19": "Further phase 'transplant': a block's row data replaced by a complete valid compressed stream of identical sizes written to another store.",
+    "C20": "Scripts include 2-4 concurrent Close calls and a settle stall before a deliberate Close when faults are planned.",
+    "C21": "Handle and iterator accounting is also snapshotted at the return of each individual Close call (sequential, asynchronous, or one of several concurrent ones).",
+    "C24": "Further phase 'transient': the same expectations with a one-shot OpenFile/Read/Seek failure inside about half of the queries.",
+    "C25": "Further phase 'shared': one expression value (constructor-built, JSON-decoded, append-built with spare capacity) used for several builder chains and constructor calls.",
+    "C26": "Further phase 'volume': 250 000 - 1 000 000 (thorough 3 000 000) distinct entries per block at rates down to 1e-12.",
+}
+
 def main():
     props = [json.loads(l) for l in open(os.path.join(HERE, "properties.jsonl"))]
     checks = []
@@ -169,6 +189,8 @@ def main():
         pid = p["id"]
         if pid in CLAIMED:
             cat, tech, text, note, ref = CLAIMED[pid]
+            if pid in EXTRA:
+                text = text + " " + EXTRA[pid]
             checks.append({
                 "property_id": pid,
                 "quick_cmd": f"./check {pid} --tier quick",
